@@ -81,6 +81,7 @@ WALL_LIMIT = 8.0          # seconds per input before the watchdog calls it a han
 OPS_PER_BYTE = 24         # python-level operations (function-call events, see serlib.count_ops) allowed per input byte ...
 OPS_CONST = 160           # ... plus this constant (measured on the unchanged tree: <= ~7 per byte + ~40, see the MEASURED note)
 OPS_SCALE = 4.5           # operations(4n elements) <= OPS_SCALE * operations(n elements) + OPS_CONST
+HS_OPS_CONST = 400        # constant part for a handshake receiver (key parsing, ECDH, logging: measured far below, see the MEASURED note)
 
 
 class Hang(BaseException):
@@ -536,7 +537,7 @@ def _run(run):
     # ---- implementation: frame-exact run with the logging stream, then the call count
     impl, model_args, meta = [], [], []
     maxima = {"time_per_byte": 0.0, "time_abs": 0.0, "ops_per_byte": (0.0, None), "ops_excess": (0, None)}
-    fp0 = SL.table_fingerprint()
+    fp0 = SL.table_fingerprint(classes=False)
     guard = SL.StateGuard().__enter__()
     orc_seen = 0
     with SL.KeyOracle() as ko:
@@ -604,7 +605,7 @@ def _run(run):
             if not exceeded and ops - 8 * n > maxima["ops_excess"][0]:
                 maxima["ops_excess"] = (ops - 8 * n, (fam, n))
             # decoding is a function of the bytes: nothing process-wide (type tables, counters, class attributes) changed
-            if SL.table_fingerprint() != fp0:
+            if SL.table_fingerprint(classes=False) != fp0:
                 run.oracle_violation("process-state-changed", dict(case, changed=guard.diff()[:6]), site)
                 guard.restore()
             if dt > 0.5 + 2e-5 * n:
@@ -934,7 +935,7 @@ def persist_hostile(run):
     for _ in range(20000 if T else 1500):
         n = r.choice([0, 1, 2, 3, 5, 8, 12, 20, 40, 100, 300])
         cases.append(("persist-random", biased_random(r, n) if r.random() < 0.8 else bytes(r.getrandbits(8) for _ in range(n))))
-    fp0 = SL.table_fingerprint()
+    fp0 = SL.table_fingerprint(classes=False)
     hangs = 0
     maxops = (0.0, None)
     with SL.StateGuard() as guard, SL.KeyOracle() as ko:
@@ -966,7 +967,7 @@ def persist_hostile(run):
                 run.oracle_violation("undocumented-exception", dict(case, exception=type(exc).__name__, code=code), site)
             if exc is None and not closed_over(value, gclasses):
                 run.oracle_violation("result-not-closed", dict(case, value_type=type(value).__name__), site)
-            if SL.table_fingerprint() != fp0:
+            if SL.table_fingerprint(classes=False) != fp0:
                 run.oracle_violation("process-state-changed", dict(case, changed=guard.diff()[:6]), site)
                 guard.restore()
             ops, exceeded, _ = SL.count_ops(lambda: S.Serializable.load_persistant(data), OPS_PER_BYTE * n + OPS_CONST)
@@ -975,7 +976,7 @@ def persist_hostile(run):
                                                                  bound="%d*len+%d" % (OPS_PER_BYTE, OPS_CONST)), site)
             elif n >= 16:
                 maxops = max(maxops, (ops / n, fam))
-            if SL.table_fingerprint() != fp0:
+            if SL.table_fingerprint(classes=False) != fp0:
                 guard.restore()
             run.count("persist_ok" if exc is None else "persist_err_%d" % code)
             run.nt(("persist", data))
@@ -1065,6 +1066,27 @@ def hs_run(run, hello, shello):
     for d in (10, 300, 440, 447, 448, 449, 450, 700):
         hcases.append(enum_tid * d + b"\x00\x03\x01")
 
+    # datagram-sized containers of class instances / enum members / strings where the hello is expected
+    HC = {name: mk for name, _, mk in hostile_containers()}
+    for name in ("set/obj-challenge", "map-key/obj-point", "set/enum-any-int", "map-key/enum-str", "set/str", "seq/obj-mix",
+                 "obj-field-set/obj-low", "set/obj-equal-fields"):
+        n = 8
+        while len(HC[name](n + 1)) <= 1380:
+            n += 1
+        hcases.append(HC[name](n))
+    hs_containers = hcases[-8:]
+    hs_ops = [0, None]
+
+    def ops_clause(fn, fam, data, site):
+        """python-level operations of one receiver call: a small multiple of the datagram size"""
+        lim = OPS_PER_BYTE * len(data) + HS_OPS_CONST
+        ops, exceeded, _ = SL.count_ops(lambda: fn(data), lim)
+        if exceeded:
+            run.oracle_violation("too-many-operations", {"family": fam, "len": len(data), "bytes": data[:2000], "operations": ">%d" % lim,
+                                                         "bound": "%d*len+%d" % (OPS_PER_BYTE, HS_OPS_CONST)}, site)
+        elif ops - 8 * len(data) > hs_ops[0]:
+            hs_ops[0], hs_ops[1] = ops - 8 * len(data), (fam, len(data))
+
     impl, args = [], []
     with SL.KeyOracle() as ko:
         for data in hcases:
@@ -1084,6 +1106,7 @@ def hs_run(run, hello, shello):
                                          "connection.py:_recvClientHello")
             impl.append(out)
             args.append([gregw, ko.wire(), FR, 1, data])
+            ops_clause(conn._recvClientHello, "hs-hello", data, "connection.py:_recvClientHello")
             run.count("hs_hello_%s" % ("accept" if out[0] == 0 else "ignore" if out[0] == 2 else "raise_%d" % out[1]))
             run.nt(("hs-hello", data))
     mres = [m[:1] if m[0] == 0 else m for m in M.call_many("hs_hello", args)]
@@ -1102,6 +1125,7 @@ def hs_run(run, hello, shello):
     for cls in SL.OBJS:
         ccases.append(cls().dumpb())
     ccases += [biased_random(r, r.choice([2, 3, 5, 9, 30])) for _ in range(2000 if T else 300)]
+    ccases += hs_containers
     impl, args = [], []
     with SL.KeyOracle() as ko:
         for data in ccases:
@@ -1121,10 +1145,14 @@ def hs_run(run, hello, shello):
                                          "connection.py:_recvChallengeResponse")
             impl.append(out)
             args.append([gregw, ko.wire(), FR, tokw, EXPECT, data])
+            conn.status = CN.ConnectionStatus.CONNECTING
+            ops_clause(conn._recvChallengeResponse, "hs-challenge", data, "connection.py:_recvChallengeResponse")
             run.count("hs_chal_%s" % ("accept" if out[0] == 0 else "ignore" if out[0] == 2 else "raise_%d" % out[1]))
             run.nt(("hs-chal", data))
     mres = [m[:1] if m[0] == 0 else m for m in M.call_many("hs_challenge", args)]
     run.compare("hs_challenge", ccases, impl, mres, describe=lambda c: lib.jsonable({"bytes": c[:300], "len": len(c)}))
+    run.notes.append("MEASURED (not proved): handshake receivers, python-level operations - 8*|datagram|: max %d at %s (allowed %d*|datagram| + %d)"
+                     % (hs_ops[0], hs_ops[1], OPS_PER_BYTE, HS_OPS_CONST))
     for name, data in _HANGS[:3]:
         run.oracle_violation("hang", {"family": "hs-receiver", "receiver": name, "bytes": data[:300], "len": len(data)},
                              "connection.py:" + name)
